@@ -220,12 +220,48 @@ Var ==
                ELSE {})
   /\ UNCHANGED <<pos, prev, stk, recs>> /\ l' = l + 1
 
+\* C12 (b): `position fen F moves <prefix> s` + `show` on the real binary, for ALL strings s of move
+\* shape (64 x 64 squares x {"", q, r, b, n}); acc = the strings not answered with an error, each
+\* with the position shown afterwards; rej = the distinct positions shown after a refusal.
+RECURSIVE ApplyTexts(_, _)
+ApplyTexts(p, ts) ==
+  IF ts = << >> THEN p
+  ELSE LET c == { m \in Legal(p) : Uci(m) = Head(ts) } IN
+       IF c = {} THEN NoPos ELSE ApplyTexts(Apply(p, CHOOSE m \in c : TRUE), Tail(ts))
+
+PosMoves ==
+  /\ IsEvent("pm")
+  /\ LET e == Rec[l]
+         base == IF e.fen = <<"startpos">> THEN StartPos ELSE Parse(e.fen)
+         p == ApplyTexts(base, e.pre)
+         lt == LegalTexts(p)
+         accs == { e.acc[i][1] : i \in DOMAIN e.acc }
+         Shown(x) == <<x.fl[1], x.fl[2], x.fl[3], x.fl[4]>>
+     IN Report(
+          F(p # NoPos /\ e.n = 20480, "HARNESS", "prefix not legal or universe incomplete", [n |-> e.n])
+          \cup F(lt \subseteq accs, "C12", "the text of a legal move was refused",
+                 [fen |-> FenLine(p), refused |-> lt \ accs])
+          \cup UNION { LET s == e.acc[i][1]  x == e.acc[i][2] IN
+                       IF s \in lt
+                       THEN LET m == CHOOSE m \in Legal(p) : Uci(m) = s
+                                q == Apply(p, m)
+                            IN F(Len(x.fl) >= 4 /\ Shown(x) = FenFields(q) /\ x.rows = DiagramRows(q.board), "C12",
+                                 "an accepted move was not played as that move", [fen |-> FenLine(p), mv |-> s, want |-> FenLine(q), shown |-> x.fl])
+                       ELSE F(FALSE, "C12", "a string that is not the text of a legal move was accepted",
+                              [fen |-> FenLine(p), mv |-> s, shown |-> x.fl])
+                     : i \in DOMAIN e.acc }
+          \cup UNION { LET x == e.rej[i] IN
+                       F(x.fl = << >> \/ (Len(x.fl) >= 4 /\ Shown(x) = FenFields(p)), "C12",
+                         "after refusing a move string the engine shows a different position", [fen |-> FenLine(p), shown |-> x.fl])
+                     : i \in DOMAIN e.rej })
+  /\ UNCHANGED <<pos, prev, stk, recs>> /\ l' = l + 1
+
 Panic ==
   /\ IsEvent("panic")
   /\ Report(F(FALSE, "PANIC", "the engine panicked", [msg |-> Rec[l].msg, root |-> Rec[l].root]))
   /\ pos' = NoPos /\ prev' = NoObs /\ stk' = << >> /\ recs' = << >> /\ l' = l + 1
 
-Next == New \/ Push \/ Pop \/ Query \/ Reimp \/ Mir \/ Var \/ Panic
+Next == New \/ Push \/ Pop \/ Query \/ Reimp \/ Mir \/ Var \/ PosMoves \/ Panic
 Spec == Init /\ [][Next]_vars
 
 \* every event consumed = one state per event plus the initial state
